@@ -63,7 +63,7 @@ func c04catalogue() []c04case {
 func TestC04(t *testing.T) {
 	e := vlib.GetEnv()
 	cat := c04catalogue()
-	n := e.Pick(len(cat), len(cat)*8)
+	n := e.Pick(len(cat), len(cat)*150)
 	vlib.RunCases(t, "C04", "retry", n, func(c *vlib.Case) vlib.Result {
 		var res vlib.Result
 		rng := c.Rng
